@@ -122,6 +122,12 @@ def str_code(s):
 def vstr(s): return V(TStr, z3.IntVal(str_code(s)), py=s)
 
 
+# str.format by denotation: the result of TEMPLATE.format(a1..an) is the uninterpreted term fmt_n(template, a1..an) (no axiom: only congruence is used,
+# i.e. equal templates and arguments give equal strings); None is formatted as the string 'None'
+FMT = {n: z3.Function('fmt%d' % n, *([I] * (n + 2))) for n in range(1, 6)}
+ZERO_CELL = -1          # the python int 0 stored in a table cell that otherwise holds object references (ids are >= 0)
+
+
 def to_real(t):
     return z3.ToReal(t) if t.sort() == I else t
 
@@ -264,6 +270,8 @@ def fresh_value(ty, base):
         return V(ty, items=[fresh_value(t, '%s.%d' % (base, i)) for i, t in enumerate(ty.a)])
     if ty.k == 'none':
         return VNONE
+    if ty.k == 'callable':
+        return V(ty, py=ty.a[0])
     if ty.k in ('arr1', 'arr1i', 'arr2'):
         srt = {'arr1': IA_R, 'arr1i': IA_I, 'arr2': A2}[ty.k]
         return V(ty, fresh(base, srt), items=[fresh(base + '.n%d' % i, I) for i in range(2 if ty.k == 'arr2' else 1)], py='fresh')
@@ -319,6 +327,7 @@ class Obligation:
     def __init__(self, oid, assumptions, goal, tag='property', line=0, note=''):
         self.oid, self.assumptions, self.goal, self.tag, self.line, self.note = oid, list(assumptions), goal, tag, line, note
         self.model_terms = {}     # name -> z3 term to evaluate in a counter-model
+        self.focus = None         # optional subset of the assumptions to try first (hypothesis selection declared by the side-car: `uses`)
 
 
 IMPLICIT_EXC = ('KeyError', 'IndexError', 'AttributeError', 'TypeError')
@@ -393,7 +402,19 @@ class Engine:
         self.discovery = False
 
     # ---------------------------------------------------------------- helpers
-    def emit(self, kind, st, goal, line=0, tag='property', extra=None):
+    def label(self, f, lab):
+        if not hasattr(self, 'labels'):
+            self.labels = {}
+        self.labels[f.get_id()] = lab
+        return f
+
+    def focused(self, pc, uses):
+        """the hypotheses an obligation declared it uses: every quantifier-free fact of the path, plus the labelled (quantified) facts named in `uses`"""
+        labels = getattr(self, 'labels', {})
+        want = set(uses)
+        return [a for a in pc if not has_quantifier(a) or labels.get(a.get_id()) in want]
+
+    def emit(self, kind, st, goal, line=0, tag='property', extra=None, uses=None):
         if self.discovery:
             return
         oid = '%s/%s' % (self.qualname, re.sub(r'@\d+', '', kind))      # ids are stable under line shifts
@@ -401,6 +422,8 @@ class Engine:
         if n:
             oid = '%s#%d' % (oid, n)
         ob = Obligation(oid, st.pc + (extra or []), goal, tag, line)
+        if uses is not None:
+            ob.focus = self.focused(st.pc + (extra or []), uses)
         self.obls.append(ob)
         return ob
 
@@ -436,6 +459,8 @@ class Engine:
             return v.t != 0
         if v.ty.k == 'none':
             return z3.BoolVal(False)
+        if v.ty.k == 'str':
+            return v.t != str_code('')
         if v.ty.k in ('ref',):
             return z3.BoolVal(True)
         if v.ty.k == 'tuple':
@@ -451,6 +476,8 @@ class Engine:
             return Tup(self.to_key(st, v.items[0]), self.to_key(st, v.items[1]))
         if v.ty.k == 'int' and z3.is_int_value(v.t) and v.t.as_long() == 1:
             return One
+        if v.ty.k == 'str':
+            return Tup(One, Obj(v.t))          # a string key (never a DSL key: those are objects, pairs of objects, or 1)
         raise OutOfSubset('value of type %r used as dict key' % (v.ty,))
 
     def as_ref(self, st, v, line, why='attribute access'):
@@ -529,6 +556,8 @@ class Engine:
         ts = [self.truth(v) for v in vals]
         if all(v.ty.k == 'bool' for v in vals):
             return vbool(z3.And(*ts) if isinstance(e.op, ast.And) else z3.Or(*ts))
+        if isinstance(e.op, ast.Or) and len(vals) == 2 and vals[0].ty.k == 'str' and vals[1].ty.k == 'str':
+            return V(TStr, z3.If(ts[0], vals[0].t, vals[1].t))
         if isinstance(e.op, ast.Or) and len(vals) == 2 and vals[0].ty.k == 'opt' and vals[0].ty.a[0] == vals[1].ty:
             # `a or b` with a Optional: value-level select
             a, b = vals
@@ -548,6 +577,11 @@ class Engine:
 
     def arith(self, op, a, b, st, line):
         a, b = self.unwrap_operand(a, st, line), self.unwrap_operand(b, st, line)
+        # a python bool in arithmetic is the int 0 / 1
+        if a.ty.k == 'bool' and b.ty.k in ('int', 'real', 'bool'):
+            a = vint(z3.If(a.t, z3.IntVal(1), z3.IntVal(0)))
+        if b.ty.k == 'bool' and a.ty.k in ('int', 'real'):
+            b = vint(z3.If(b.t, z3.IntVal(1), z3.IntVal(0)))
         if a.ty.k == 'opt' or b.ty.k == 'opt':
             raise OutOfSubset('arithmetic on optional at line %d' % line)
         if a.ty.k in ('int', 'real') and b.ty.k in ('int', 'real'):
@@ -691,6 +725,10 @@ class Engine:
             return is_One(a.t)
         if ka == 'str' and kb == 'str':
             return a.t == b.t
+        if ka == 'npshape' and kb == 'tuple' and len(b.items) == 1 and b.items[0].ty.k == 'int' and z3.is_int_value(b.items[0].t) and b.items[0].t.as_long() == 0:
+            # shape == (0,): only a 1-D empty array; an array built from a list of rows is 1-D exactly when there is no row
+            kind = a.items[0]
+            return z3.BoolVal(False) if kind == 'row' else st.heap.len(a.t) == 0
         if ka == 'py' and kb == 'py':
             return z3.BoolVal(a.py == b.py)
         if ka == 'typeof' and kb == 'py' and b.py[0] == 'class':
@@ -727,6 +765,8 @@ class Engine:
         base = self.ev(e.value, st)
         if base.ty.k == 'py':
             return vpy(('attr', base.py, e.attr))
+        if base.ty.k == 'objarr' and e.attr == 'shape':
+            return V(T('npshape'), base.t, items=base.items)
         if base.ty.k in ('arr1', 'arr1i') and e.attr == 'shape':
             return V(TTuple(TInt), items=[vint(base.items[0])])
         if base.ty.k == 'arr2' and e.attr == 'shape':
@@ -923,14 +963,23 @@ class Engine:
     def ev_ListComp(self, e, st):
         """[f(x) for x in L] over a heap list, f a pure expression: the new list is defined pointwise (no loop is cut)"""
         g = e.generators[0]
-        if len(e.generators) != 1 or g.ifs or not isinstance(g.target, ast.Name):
+        enum = (isinstance(g.target, ast.Tuple) and len(g.target.elts) == 2 and all(isinstance(x, ast.Name) for x in g.target.elts))
+        if len(e.generators) != 1 or g.ifs or not (isinstance(g.target, ast.Name) or enum):
             raise OutOfSubset('list comprehension shape at line %d' % e.lineno)
         src = self.ev(g.iter, st)
+        if enum:
+            if not (src.ty.k == 'enumerate' and len(src.items) == 1 and src.items[0].ty.k == 'list'):
+                raise OutOfSubset('list comprehension with a pair target over %r at line %d' % (src.ty, e.lineno))
+            src = src.items[0]
         if src.ty.k != 'list':
             raise OutOfSubset('list comprehension over %r at line %d' % (src.ty, e.lineno))
         iq = fresh('iq', I)
         sub = st.fork()
-        sub.env[g.target.id] = self.list_elem(sub, src, iq)
+        if enum:
+            sub.env[g.target.elts[0].id] = vint(iq)
+            sub.env[g.target.elts[1].id] = self.list_elem(sub, src, iq)
+        else:
+            sub.env[g.target.id] = self.list_elem(sub, src, iq)
         n_ex, n_ob = len(self.pending_exits), len(self.obls)
         val = self.ev(e.elt, sub)
         if len(self.pending_exits) != n_ex or len(self.obls) != n_ob or len(sub.pc) != len(st.pc):
@@ -988,12 +1037,27 @@ class Engine:
             kw = {k.arg: self.ev(k.value, st) for k in e.keywords}
             if recv.ty.k == 'py':
                 return self.call_py(st, ('attr', recv.py, f.attr), args, kw, e)
+            if recv.ty.k == 'str' and f.attr == 'format' and not kw and 1 <= len(args) <= 5 and all(
+                    a.ty.k in ('str', 'int') or (a.ty.k == 'opt' and a.ty.a[0].k in ('str', 'int')) for a in args):
+                def farg(a):
+                    if a.ty.k == 'opt':
+                        return z3.If(a.none, z3.IntVal(str_code('None')), a.t)
+                    return a.t
+                return V(TStr, FMT[len(args)](recv.t, *[farg(a) for a in args]))          # (other argument kinds: an opaque string, below)
+            if recv.ty.k == 'objarr' and f.attr == 'reshape' and len(args) == 2 and all(a.ty.k == 'int' for a in args) and recv.items[0] == 'flat':
+                ok = z3.And(args[0].t == 1, args[1].t == -1)
+                if not z3.is_true(z3.simplify(ok)):
+                    raise OutOfSubset('reshape other than (1, -1) at line %d' % e.lineno)
+                return V(T('objarr'), recv.t, items=['row'])
             return self.call_method(st, recv, f.attr, args, kw, e.lineno)
         fn = self.ev(f, st)
         args = [self.ev(a, st) for a in e.args]
         kw = {k.arg: self.ev(k.value, st) for k in e.keywords}
         if fn.ty.k == 'py':
             return self.call_py(st, fn.py, args, kw, e)
+        if fn.ty.k == 'callable':
+            # a function-valued parameter: known only through the abstract contract the side-car gives it
+            return self.apply_contract(st, self.reg.by_key[fn.ty.a[0]], args, kw, e.lineno, fn.ty.a[0])
         raise OutOfSubset('call of %r at line %d' % (fn.ty, e.lineno))
 
     def call_py(self, st, what, args, kw, e):
@@ -1082,6 +1146,10 @@ class Engine:
                 self.emit('safe.rectangular@%d' % line, st, z3.And(n0 >= 1, z3.ForAll([iq], z3.Implies(z3.And(iq >= 0, iq < n0), st.heap.len(row(iq)) == n1))), line, tag='aux')
                 ii, jj = fresh('i', I), fresh('j', I)
                 return V(TArr2, z3.Lambda([ii, jj], st.heap.A('eltR')[row(ii)][jj]), items=[n0, n1], py='fresh')
+            if et.k in ('ref', 'htuple') or (et.k == 'any' and getattr(self.c, 'object_tables', False)):
+                return V(T('objarr'), l.t, items=['flat'])          # numpy object array of a flat list: same cells
+            if et.k == 'list' and et.a[0].k in ('ref', 'any'):
+                return V(T('objarr'), l.t, items=['rows'])          # of a list of rows (shape (0,) when there is no row)
             if et.k == 'any':
                 # never appended to: an empty array
                 return V(TArr1, z3.K(I, z3.RealVal(0)), items=[st.heap.len(l.t)], py='fresh')
@@ -1193,6 +1261,10 @@ class Engine:
         else:
             if v.ty.k == 'tuple':
                 v = self.heapify_tuple(st, v)
+            if et.k == 'ref' and v.ty.k == 'int':
+                if not (z3.is_int_value(v.t) and v.t.as_long() == 0):
+                    raise OutOfSubset('append of an int other than 0 to a list of references at line %d' % line)
+                v = V(et, z3.IntVal(ZERO_CELL))
             if smt_sort(v.ty) != I:
                 raise OutOfSubset('append %r to list' % (v.ty,))
             st.heap.set('eltI', z3.Store(st.heap.A('eltI'), lst.t, z3.Store(st.heap.A('eltI')[lst.t], n, v.t)))
@@ -1269,14 +1341,14 @@ class Engine:
             pred = mods.get(name)
             r = fresh('r', I)
             keep = z3.And(r >= 0, r < S0.alloc) if pred is None else z3.And(r >= 0, r < S0.alloc, z3.Not(pred(r)))
-            st.pc.append(z3.ForAll([r], z3.Implies(keep, new[r] == old[r]), patterns=[new[r]]))
+            st.pc.append(self.label(z3.ForAll([r], z3.Implies(keep, new[r] == old[r]), patterns=[new[r]]), 'frame.%s.%s' % (c.qualname, name)))
         for gname in c.mod_globals:
             st.heap.glob[gname] = fresh_value(self.global_types[gname], gname)
         res = c.fresh_result(self, st, S0, a)
         for lab, f, _tag in c.ensures(S0, st.heap, a, res):
             if _tag == 'ghost':
                 continue          # stated with a spec function that only has a meaning inside the callee's own proof: callers may not rely on it
-            st.pc.append(f)
+            st.pc.append(self.label(f, 'ens.%s.%s' % (c.qualname, lab)))
         return res
 
     def dead_value(self, ty):
@@ -1363,6 +1435,11 @@ class Engine:
                     raise OutOfSubset('store to class attribute %s' % gname)
                 st.heap.glob[gname] = v
                 return
+            if isinstance(target.value, ast.Attribute) and target.value.attr == 'columns' and target.attr == 'name':
+                owner = self.ev(target.value.value, st)
+                if owner.ty.k == 'ref' and owner.ty.a[0] == 'DataFrame':
+                    self.write_field(st, 'DataFrame', 'colname', owner.t, v, line)
+                    return
             base = self.ev(target.value, st)
             if base.ty.k == 'key':
                 base = self.as_ref(st, base, line)
@@ -1675,7 +1752,8 @@ class Engine:
                 entry.env[name] = V(TVec, VZ, py='fresh')       # python 0 as the neutral element of vector addition
         # ---- init
         pos0 = self.loop_pos_initial(it)
-        for lab, f in spec['inv'](ctx(entry, pos0)):
+        for cl in spec['inv'](ctx(entry, pos0)):
+            lab, f = cl[0], cl[1]
             self.emit('loop%d.init[%s]' % (n, lab), entry, f, s.lineno, tag='aux')
 
         # ---- discover which heap arrays an arbitrary iteration may modify (dry run with everything havocked)
@@ -1710,7 +1788,7 @@ class Engine:
 
         h, lm = havocked('it')
         pos = self.loop_pos_symbolic(it, h, entry)
-        h.pc += [f for _, f in spec['inv'](ctx(h, pos))]
+        h.pc += [self.label(cl[1], 'inv.' + cl[0]) for cl in spec['inv'](ctx(h, pos))]
         h.pc += pos['assume']
         if 'lemmas' in spec:
             h.pc += spec['lemmas'](ctx(h, pos))       # definitional instances of spec functions (ghost)
@@ -1726,8 +1804,17 @@ class Engine:
         self.exits = saved_exits + body_exits      # return/raise inside the loop body are real exits
         pos_next = self.loop_pos_next(it, pos)
         for bi, e in enumerate(ends):
-            for lab, f in spec['inv'](ctx(e, pos_next)):
-                self.emit('loop%d.preserve[path%d][%s]' % (n, bi, lab), e, f, s.lineno, tag='aux')
+            # `cuts`: intermediate assertions about the state at the end of the body (position = the iteration just executed); each one is PROVED
+            # here and only then available to the obligations that follow (assert-then-assume: a proof-structuring device, not an assumption)
+            cctx = ctx(e, pos)
+            cctx.H_start = h.heap          # heap at the start of this iteration (cuts may relate the end of the body to it)
+            for cl in (spec['cuts'](cctx) if 'cuts' in spec else []):
+                lab, f, uses = (tuple(cl) + (None,))[:3]
+                self.emit('loop%d.cut[path%d][%s]' % (n, bi, lab), e, f, s.lineno, tag='aux', uses=uses)
+                e.pc.append(self.label(f, 'cut.' + lab))
+            for cl in spec['inv'](ctx(e, pos_next)):
+                lab, f, uses = (tuple(cl) + (None,))[:3]
+                self.emit('loop%d.preserve[path%d][%s]' % (n, bi, lab), e, f, s.lineno, tag='aux', uses=uses)
             # automatic frame invariant: objects older than the loop and outside `mods` are untouched
             for name in modset:
                 if name not in e.heap.arr:
@@ -1743,7 +1830,7 @@ class Engine:
         # ---- exit
         x, _ = havocked('exit')
         posx = self.loop_pos_final(it, x, entry)
-        x.pc += [f for _, f in spec['inv'](ctx(x, posx))]
+        x.pc += [self.label(cl[1], 'inv.' + cl[0]) for cl in spec['inv'](ctx(x, posx))]
         x.pc += posx['assume']
         for t in targets:
             x.env.pop(t, None)      # loop targets are not used after the loops of the subset (checked: OutOfSubset on use)
@@ -1902,7 +1989,7 @@ class Engine:
             st.pc += self.wf_param(H0, gv)
         Heap.MATERIALIZED = set()
         for lab, f in c.requires(H0, args):
-            st.pc.append(f)
+            st.pc.append(self.label(f, 'req.' + lab))
         st.pc += c.type_invariants(H0)
         st.pc += c.axioms()
         st.pc += c.defs(H0, args)
